@@ -111,6 +111,13 @@ type stepCase struct {
 	IOFill  int       `json:"iofill"` // -1 = hashed port data, else constant byte
 	NilIO   bool      `json:"nil_io,omitempty"`   // emulator runs without an I/O device (IOFill must be 0)
 	MemKind int       `json:"mem_kind,omitempty"` // 0 recording bus, 1 DumbMemory, 2 MapMemory
+	// RaiseAt > 0: a device callback raises a request at the RaiseAt-th bus access of this Step (RaiseNMI: an NMI,
+	// else a maskable one). MaskedPending: a maskable request is already pending and refused (IFF1 is forced to 0)
+	// when the Step starts. The Step must execute exactly the instruction; the request raised last is the one
+	// that is pending afterwards.
+	RaiseAt       int  `json:"raise_at,omitempty"`
+	RaiseNMI      bool `json:"raise_nmi,omitempty"`
+	MaskedPending bool `json:"masked_pending,omitempty"`
 }
 
 // stepRig holds the reusable machinery of one worker.
@@ -220,11 +227,30 @@ func (r *stepRig) run(c *stepCase, code []uint8) stepOutcome {
 		r.cpu.RETIHandler = &r.reti
 	}
 	eng.ToCPU(&c.St, &r.cpu)
+	var oldReq, newReq *z80.Interrupt
+	if c.MaskedPending {
+		oldReq = z80.IM1Interrupt()
+		r.cpu.Interrupt = oldReq
+	}
+	if c.RaiseAt > 0 {
+		if c.RaiseNMI {
+			newReq = z80.NMIInterrupt()
+		} else {
+			newReq = z80.IM2Interrupt(0x10)
+		}
+		cpu, at := &r.cpu, c.RaiseAt
+		r.ib.Hook = func(n int, _ bus.Access) {
+			if n == at {
+				cpu.Interrupt = newReq
+			}
+		}
+	}
 	l0 := atomic.LoadInt64(&logLines)
 	if p := eng.SafeStep(&r.cpu); p != nil {
 		o.discs = append(o.discs, eng.Disc{Kind: eng.KPanic, Msg: fmt.Sprint("Step panicked: ", p)})
 		return o
 	}
+	r.ib.Hook = nil
 	o.logged = atomic.LoadInt64(&logLines) != l0
 	o.got = eng.FromCPU(&r.cpu)
 	o.nAccess = len(r.mb.Log)
@@ -268,6 +294,22 @@ func (r *stepRig) run(c *stepCase, code []uint8) stepOutcome {
 		r.mb.Log = saved
 	default:
 		o.discs = append(o.discs, eng.LogDiff(r.ib, r.mb)...)
+	}
+	// requests: what was pending at entry stays pending (refused); one raised by a callback during the
+	// Step waits for the next Step - it is neither served within this one nor lost
+	wantReq := oldReq
+	if newReq != nil && len(r.ib.Log) >= c.RaiseAt {
+		wantReq = newReq
+	}
+	if r.cpu.Interrupt != wantReq {
+		what := "the request raised by a device callback during the Step"
+		if wantReq == oldReq {
+			what = "the refused request that was pending at entry"
+		}
+		if wantReq == nil {
+			what = "no request"
+		}
+		o.discs = append(o.discs, eng.Disc{Kind: eng.KIntr, Msg: "after the Step cpu.Interrupt does not hold " + what})
 	}
 	wantN, wantI := 0, 0
 	if handlers&1 == 0 {
@@ -460,6 +502,14 @@ func (p *stepProp) one(d *stepDraw, ei int, t failer) {
 		c.MemKind = memDumb
 	case 3:
 		c.MemKind = memMap
+	case 4:
+		// a device raises a request in the middle of the instruction
+		c.RaiseAt = 1 + int(d.memSeed>>12)%6
+		c.RaiseNMI = d.memSeed>>16&1 == 0
+		if d.memSeed>>17&1 == 0 {
+			c.MaskedPending = true
+			c.St.IFF1 = false
+		}
 	}
 	o := p.rig.run(&c, code)
 	p.col.Eval(1)
@@ -505,6 +555,8 @@ func (p *stepProp) one(d *stepDraw, ei int, t failer) {
 		p.col.Label("machine:DumbMemory")
 	case c.MemKind == memMap:
 		p.col.Label("machine:MapMemory")
+	case c.RaiseAt > 0:
+		p.col.Label("machine:request-raised-during-step")
 	}
 	wrapPC := uint16(c.St.PC+uint16(o.in.Len)) < c.St.PC
 	if wrapPC {
